@@ -283,11 +283,12 @@ pub fn run_c20(opts: &Opts, out: &mut Emitter) {
             let t = mk_template(&mut r);
             // some history items fail (store too poor)
             let amt = if r.chance(1, 4) { 10 } else { r.range(20_000_000, 90_000_000) as i128 };
-            h.push((t, *r.pick(&[1_000_000i128, 3_000_000]), vec![amt, 7_000_000]));
+            // a poor store stays poor (the resolution fails half-way, after some passes have compiled)
+            h.push((t, *r.pick(&[1_000_000i128, 3_000_000]), if amt == 10 { vec![amt] } else { vec![amt, 7_000_000] }));
         }
         let t = mk_template(&mut r);
         let amt = if r.chance(1, 8) { 10 } else { r.range(20_000_000, 90_000_000) as i128 };
-        plans.push((h, (t, *r.pick(&[1_000_000i128, 3_000_000]), vec![amt, 7_000_000])));
+        plans.push((h, (t, *r.pick(&[1_000_000i128, 3_000_000]), if amt == 10 { vec![amt] } else { vec![amt, 7_000_000] })));
     }
     for (k, (history, target)) in plans.into_iter().enumerate() {
         let Some(target_tx) = lower(&target.0) else { continue };
